@@ -218,6 +218,35 @@ def whole(E, k, w, a, backends):
     E.cover("whole")
 
 
+def spiders(E):
+    """boxes drawn as spiders of different shapes and colours render"""
+    import matplotlib
+    matplotlib.use("Agg")
+    import matplotlib.pyplot as plt
+    from discopy.monoidal import Ty, Box, Id
+    x = Ty('x')
+    shapes = [E.choice('shape%d' % i, ['circle', 'rectangle', 'plus'])
+              for i in range(2)]
+    colors = [E.choice('color%d' % i, ['red', 'green']) for i in range(2)]
+    a = Box('a', x, x @ x, draw_as_spider=True, shape=shapes[0],
+            color=colors[0])
+    b = Box('b', x @ x, x, draw_as_spider=True, shape=shapes[1],
+            color=colors[1])
+    plain = Box('p', x, x)
+    d = a >> Id(x) @ plain >> b
+    with tempfile.TemporaryDirectory() as tmp:
+        try:
+            d.draw(path=os.path.join(tmp, "d.png"), show=False)
+            plt.close('all')
+        except Exception as e:
+            E.fail("C20:backend:matplotlib-raises:spiders", info=repr(e))
+        try:
+            d.draw(to_tikz=True, path=os.path.join(tmp, "d.tikz"))
+        except Exception as e:
+            E.fail("C20:backend:tikz-raises:spiders", info=repr(e))
+    E.cover("spiders")
+
+
 def programs(E, k, w):
     """diagramize: a function body using its wires in planar order yields
     the diagram with the wiring the body describes"""
@@ -284,6 +313,11 @@ def harnesses(tier):
           "arity <= %d incl. scalars, states and effects" % (k, w, a),
           outside="pixel-level rendering; quantum drawing helpers; "
           "pregroup.draw; equation; to_gif", timeout_s=T),
+        H("spiders", spiders, {}, FUNCS, covers=["spiders"],
+          engine="DSE choices; back-ends executed",
+          bounds="two spider-drawn boxes with shapes from {circle, rectangle, "
+          "plus} and colours from {red, green} around a plain box",
+          timeout_s=T),
         H("programs", programs, dict(k=2 if q else 4, w=3), FUNCS,
           covers=["program"], engine="DSE choices (straight-line programs "
           "enumerated)", bounds="bodies of %d applications over {copy 1->2, "
